@@ -729,9 +729,23 @@ func probes() []probe {
 }
 
 func cmdProbe() {
-	for i, p := range probes() {
+	id := 0
+	for _, p := range probes() {
 		b, _ := hex.DecodeString(p.Hex)
-		fmt.Fprintf(out, "P %d %s %s | M %s | D %s | V %s\n", i, p.Fmt, p.Hex, p.Sig+" "+strings.ReplaceAll(p.What, "|", "/"), doDeserialize(p.Fmt, b), doDataItem(p.Fmt, b))
+		fmt.Fprintf(out, "P %d %s %s | M %s | D %s | V %s\n", id, p.Fmt, p.Hex, p.Sig+" "+strings.ReplaceAll(p.What, "|", "/"), doDeserialize(p.Fmt, b), doDataItem(p.Fmt, b))
+		id++
+	}
+	// round-trip witnesses: Serialize then Deserialize a message built here
+	const jsig = "json:float-from-2^52-written-as-integer-literal"
+	for _, f := range []float64{-1e19, float64(1 << 63), 123456789012345678} {
+		m := &wamp.Publish{Request: 1, Options: wamp.Dict{}, Topic: "a.b", Arguments: wamp.List{f}}
+		data, res := doSerialize("json", m)
+		if res != "" {
+			fmt.Fprintf(out, "Q %d json - | M %s %s | D serialize-%s | V -\n", id, jsig, msgStr(m), res)
+		} else {
+			fmt.Fprintf(out, "Q %d json %s | M %s %s | D %s | V %s\n", id, hexs(data), jsig, msgStr(m), doDeserialize("json", data), doDataItem("json", data))
+		}
+		id++
 	}
 }
 
